@@ -770,7 +770,7 @@ def assume(c):
 
 
 def _second_solver(c, z3_says_sat):
-    """re-discharge pc /\ not c with cvc5 (SMT-LIB2 export); disagreement is inconclusive, an error/timeout is 'unsupported'"""
+    """re-discharge pc and not c with cvc5 (SMT-LIB2 export); disagreement is inconclusive, an error/timeout is 'unsupported'"""
     t = time.time()
     CTX.stats["cross_checked"] += 1
     try:
